@@ -114,6 +114,8 @@ ColourHull(stops, mode, tlo, thi) ==
 (* ---- acceptance of one observed pixel ---------------------------------------------------- *)
 (* obs = <<a, r, g, b>> in units of 1/unit of an 8-bit step (unit = 1 narrow, 256 wide)       *)
 ChannelsOK(h, obs, unit) ==
+    \* far outside 0..255 steps is never within tolerance (and must not overflow the products below)
+    /\ \A k \in 1..4 : obs[k] >= -256 * unit /\ obs[k] <= 512 * unit
     /\ obs[1] * CS >= (h[1][1] - CS) * unit /\ obs[1] * CS <= (h[1][2] + CS) * unit
     /\ \A k \in 2..4 :
           \* alpha * colour / 255, in units of 1 / (255 * CS * CS) of a step
